@@ -104,8 +104,48 @@ def runGslb (body impl : String) : Ans :=
     | _, _, _ => { model := "bad-op", verdict := "skip" }
   | _ => { model := "bad-op", verdict := "skip" }
 
+
+/-! ### slb op -/
+def slbDecisions (s : Slb) (keys : List (String × Int)) : String :=
+  ",".intercalate (keys.map fun k => ((slbSticky s k.2).1).getD "-")
+
+def runSlb (body impl : String) : Ans :=
+  match body.splitOn "~" with
+  | [hs, fs, ks] =>
+    let steps : Option (List (Option (List Sub))) :=
+      if hs == "-" then some [] else (hs.splitOn ";").mapM fun st => if st == "!" then some none else (parseGConf st).map some
+    -- BackendRR.Init / UpdateWeight scale the configured weight by 100
+    let scale := fun (l : List Sub) => l.map fun b => { b with weight := b.weight * 100 }
+    match steps.map (·.map (·.map scale)), (parseGConf fs).map scale, (ks.splitOn ",").mapM parseProbe with
+    | some steps, some final, some keys =>
+      -- first conf = Init, later confs = Update, `!` = a sticky request (only once initialised)
+      let st : Option Slb := steps.foldl (fun acc step =>
+        match acc, step with
+        | none, some conf => some (slbInit conf)
+        | none, none => none
+        | some s, some conf => some (slbUpdate s conf)
+        | some s, none => some (slbSticky s 0).2) none
+      let viaHist := match st with | some s => slbUpdate s final | none => slbInit final
+      let model := "fresh=" ++ slbDecisions (slbInit final) keys ++ ";hist=" ++ slbDecisions viaHist keys
+      let verdict :=
+        match impl.splitOn ";hist=" with
+        | [f, h] =>
+          let f := (f.drop 6).toString
+          if f.contains '|' || h.contains '|' then "FAIL:slb-order-dependent"
+          else if f != h then "FAIL:slb-history-dependent"
+          else "ok"
+        | _ => "FAIL:slb-bad-result"
+      let confs := steps.filterMap id
+      let sameCount := match confs.getLast? with | some l => l.length == final.length && !(l.all fun b => final.any fun c => c.name == b.name) | none => false
+      { model := model, verdict := verdict,
+        tags := ["slb", s!"hist{min confs.length 3}"] ++ (if sameCount then ["replace-same-count"] else []) ++
+          (if steps.contains none then ["sorted-before"] else []) ++ (if confs.isEmpty then [] else ["nt"]) }
+    | _, _, _ => { model := "bad-op", verdict := "skip" }
+  | _ => { model := "bad-op", verdict := "skip" }
+
 def run (op impl : String) : Ans :=
   match op.splitOn " " with
+  | "slb" :: rest => runSlb (" ".intercalate rest) impl
   | "gslb" :: rest => runGslb (" ".intercalate rest) impl
   | "cfg" :: rest =>
     match (" ".intercalate rest).splitOn "~" with
